@@ -113,3 +113,115 @@ PROPS["C18"] = dict(
     assumptions=[],
     replay={"*": "playback"},
 )
+
+PROPS["C19"] = dict(
+    level="model_checking",
+    groups=lambda tier, seed, ctx: [Group("c19", ["verif_c19"], jobs=8, harness_timeout=1800, mem_gb=20)],
+    functions=["main::load_rom", "system::read_header", "cart::Header::{valid_checksum,get_rom_bank_count,get_rom_size_bytes,get_ram_size_bytes,create_cart_state}",
+               "emulator::Core::from_rom_file", "mem::MemoryAreas::with_rom_file"],
+    bounds={"quick": "all 2^640 header contents; all file lengths 0..9 MiB; the real load_rom/read_header run against a ghost regular file of that length "
+                     "(seek/read/read_exact stubbed to regular-file semantics); accept/reject decision, buffer sizes, and the mmap contract (mapping never extends past EOF)",
+            "thorough": "same"},
+    outside=["kernel mmap/file semantics beyond the stated contract", "UTF-8 validity of the title (get_title is cut: from_utf8_unchecked)", "I/O errors other than end-of-file"],
+    stubs=CTOR_STUBS[1:] + ["system::open_rom_file -> Ok(file) (existence is not the subject)", "File::{seek,read,read_exact} -> regular file of ghost length holding the symbolic header at 0x100",
+                            "system::get_rom_buffer -> contract stub recording whether the mapping exceeds the file length", "CodeCache::new -> empty cache without mmap", "Header::get_title -> empty string"],
+    assumptions=["unsupported cartridge types are checked separately: construction must not return (controlled termination)"],
+    replay={"*": "playback"},
+)
+
+PROPS["C20"] = dict(
+    level="model_checking",
+    groups=lambda tier, seed, ctx: [Group("c20", ["verif_c20"], jobs=14, harness_timeout=1200 if tier == "quick" else 3600, mem_gb=12)],
+    functions=["debug::command::{parse_address,parse_command,normalize_command}", "debug::disassembly::disassemble", "decoder::{decode,decode_cb}"],
+    bounds={"quick": "parse_address: all 65536 values in lower/upper-case, padded/unpadded 0x-hex and in decimal; 0x10000..0xFFFFF and 65536..999999 rejected; "
+                     "'0x' + up to 4 arbitrary printable ASCII bytes accepted iff hex digits; arbitrary ASCII tokens <= 5 bytes total. parse_command: command words with "
+                     "symbolic letter case and whitespace layouts, address arguments for all 65536 values; arbitrary ASCII lines <= 3 bytes. disassemble: every first byte "
+                     "(256) and every CB second byte (256) with symbolic operand bytes, placed first and last in a two-instruction slice at any base address (incl. wrap)",
+            "thorough": "same"},
+    outside=["sign-prefixed numbers (+12, 0x+1f): not settled by the statement", "arbitrary Unicode lines longer than the stated bounds", "rendered disassembly text (Op's Display is cut)",
+             "'info registers' two-word command (String::to_lowercase on two tokens did not fit the quick budget)"],
+    stubs=["<Op as Display>::fmt -> Ok(()) in the disassembler harnesses (text is not the subject)"],
+    assumptions=[],
+    replay={"*": "playback"},
+)
+
+PROPS["C14"] = dict(
+    level="model_checking",
+    groups=lambda tier, seed, ctx: [Group("c14", ["verif_c14"], jobs=6, harness_timeout=1800 if tier == "quick" else 7200, mem_gb=24)],
+    functions=["devices::video::VideoState::{run_clock_cycles,check_current_line,check_mode_interrupt,get_lcd_status,get_ly,get_current_mode,set_ly_compare,set_lcd_status,new}"],
+    bounds={"quick": "one 4-clock step from EVERY valid schedule position (17556 positions x all STAT enables x all LYC values x arbitrary scroll/window registers): "
+                     "position advances by 4 on a 70224 cycle, mode/LY/STAT bits and VBlank/STAT requests equal the closed-form schedule (inductive step => frame length, "
+                     "once-per-frame VBlank for histories of any length); one call with 8 clocks from any position, a 96-clock batch from position 153*456+448 (across the frame wrap, start position concrete) and a 24-clock batch from 143*456+444 across the 143->144 hand-over equal the same number of reference steps",
+            "thorough": "plus symbolic batch length k <= 8 from any position (may exceed the time budget: reported inconclusive then)"},
+    outside=["frame length and per-frame counts are consequences of the step relation, not separate 17556-step queries", "LCD disabled (LCDC bit 7 = 0) behaviour: not in the statement"],
+    stubs=["LCD::new -> same value without the push loop", "VideoState::{find_current_line_sprites,cache_next_tile_row,cache_next_window_tile_row} -> no-ops (they write only the pixel-pipeline caches, which the schedule does not read; native replay runs the real ones)",
+           "LCD::get_writing_buffer_line -> a 160-byte scratch line (pixels are C15's subject)"],
+    assumptions=["pixel pipeline state (tile cache, object cache cursor) consistent with the schedule position; VRAM/OAM contents zero (not read by the schedule)"],
+    replay={"*": "playback"},
+)
+
+def _batches(prefix):
+    return [[]]
+
+def _interp_groups(tier, seed, ctx):
+    return [Group("cpu_interp", ["verif_cpu_interp"], jobs=16, harness_timeout=900, mem_gb=32)]
+
+_INTERP_COMMON = dict(
+    level="model_checking",
+    groups=_interp_groups,
+    functions=["interpreter::{run_next_op,run_op} and every interp_* function", "decoder::{decode,decode_cb}", "decoder::ops::Op::is_block_end", "cpu::Registers accessors"],
+    stubs=["mem::memory_read_byte / memory_write_byte -> recording bus (k-th read returns an arbitrary byte; every event logged and compared in order)",
+           "mem::get_executable_memory_slice -> serves the three instruction bytes (opcode concrete, operands symbolic)"],
+    assumptions=["F's low nibble is 0 and register pairs are 16-bit in the pre-state (the invariant the property itself states)",
+                 "the instruction lies inside one executable region (PC <= 0xFFFC)"],
+    replay={"*": "playback"},
+)
+PROPS["C05"] = dict(_INTERP_COMMON, key_prefix="C05",
+    bounds={"quick": "one query per defined opcode (245 + 256): ALL register/flag values, operand bytes, bus read values, SP/PC; results, all four flags, F low nibble, "
+                     "16-bit range of every pair, and the exact bus event list against the SM83 reference", "thorough": "same (already complete per instruction)"},
+    outside=["instructions straddling the end of an executable region"])
+PROPS["C06"] = dict(_INTERP_COMMON, key_prefix="C06",
+    bounds={"quick": "one query per opcode byte (256 + 256 CB): PC (length / target, 16-bit wrap), SP and the stack bytes in order, machine cycles for taken and not-taken, "
+                     "block termination, status; the 11 undefined opcodes must not return", "thorough": "same"},
+    outside=["instructions straddling the end of an executable region", "HALT bug, STOP's second byte"])
+
+import templates as _T
+
+def _jit_groups(tier, seed, ctx):
+    return [Group("jit", ["verif_jit"], features=["jit"], jobs=16, harness_timeout=1800 if tier == "quick" else 3600, mem_gb=32)]
+
+_JIT_COMMON = dict(
+    level="translation_validation",
+    pre=_T.pre,
+    groups=_jit_groups,
+    functions=["emitter::x86_64::Emitter::encode_op and every emit_* template (executed natively, output analysed)", "decoder::decode", "interpreter::run_next_op/run_op",
+               "mem::{memory_read_word,memory_write_word}", "verif::x86sem (x86-64 subset semantics)"],
+    stubs=_INTERP_COMMON["stubs"] + ["helper calls in emitted code are dispatched to the same recording bus in replay mode: k-th event must equal the interpreter's k-th event"],
+    assumptions=_INTERP_COMMON["assumptions"] + ["host state at block entry is what the prologue establishes: eax/ebx/ecx/edx hold the zero-extended pairs, r12w/r13w/r15w the 16-bit fields "
+                 "with ARBITRARY upper bits, r14 = 0, every other register, the flags and the stack contents arbitrary", "PC in ROM (only ROM is translated)"],
+    inconclusive_keys=["C01.x86sem."],
+    replay={"*": "playback"},
+)
+PROPS["C01"] = dict(_JIT_COMMON, key_prefix="C01",
+    bounds={"quick": "every defined opcode (245 + 256): the template the real emitter produces on this tree, all guest register/flag values, symbolic operand bytes "
+                     "(side table at the byte positions where the emitter copies them), all bus read values, arbitrary host scratch state; single-instruction templates compose "
+                     "into blocks because each is checked from ANY related host state",
+            "thorough": "same plus block framing"},
+    outside=["cache arena exhaustion", "blocks whose accumulated cycles exceed 65535", "a block that remaps the ROM bank it executes from", "real-CPU values of SDM-undefined flags (nondeterministic here)",
+             "16-byte stack alignment at helper calls is reported as an observation (cover), not asserted"])
+PROPS["C02"] = dict(_JIT_COMMON, key_prefix="C02",
+    bounds={"quick": "every defined opcode, both outcomes of every conditional (F symbolic): r15w delta equals the interpreter's cycle delta", "thorough": "same"},
+    outside=["more than 65535 cycles in one block"])
+
+PROPS["C07"] = dict(
+    level="model_checking",
+    groups=lambda tier, seed, ctx: [Group("c07", ["verif_c07"], jobs=6, harness_timeout=2400 if tier == "quick" else 7200, mem_gb=20)],
+    functions=["emulator::Core::handle_interrupt", "devices::io::IO::get_active_interrupts", "devices::interrupts::InterruptFlag::{clear,as_u8}", "mem::memory_write_byte (real bus ladder, both pushes)"],
+    bounds={"quick": "all 32x32 IF/IE values x 3 master-enable states x 3 run states x every PC x pending cycle counts, with SP ranging over every work-RAM and high-RAM stack position "
+                     "and, separately, over the edge set {0x0000,0x0001 (push on IE), 0xFF10,0xFF11 (push on IF), 0xFFFF, HRAM/WRAM lower edges, echo, 0xFEA1, VRAM, 0xFF48}",
+            "thorough": "plus a fully symbolic SP through the real ladder"},
+    outside=["final IF value when the LOW byte of the push itself lands on IF (statement does not fix it): PC/SP/IME still compared"],
+    stubs=CTOR_STUBS + ["Stdout::write/flush -> recorder"],
+    assumptions=["cartridge is ROM-only with 8 KiB RAM: the controller is not involved in a dispatch", "device state is power-on (dispatch does not consult it)"],
+    replay={"*": "playback"},
+)
